@@ -60,6 +60,7 @@ type RunResult struct {
 	Seed         uint64            `json:"seed"`
 	Run          uint64            `json:"run"`
 	Config       map[string]any    `json:"config"`
+	Override     map[string]string `json:"override,omitempty"` // the overrides in effect (a replay must carry them)
 	Violations   []Violation       `json:"violations"`
 	Stats        map[string]int64  `json:"stats"`
 	Faults       map[string]int64  `json:"faults"`
